@@ -152,6 +152,12 @@ def oracle(c, r):
             full = all(ir["st"]["dir"][a][b] != 0 for a in range(n) for b in range(n) if M[a][b])
             got = (ir["res"][0] == 1) if c["ops"][i - 1][0] == 1 else (ir["res"][0] == "ok")
             if got != full: return {"violates": True, "why": "step %d: fullness reported %s, actually %s" % (i - 1, got, full)}
+            if c["ops"][i - 1][0] == 2 and ir["res"][0] == "ok" and len(ir["res"]) > 2:
+                # the identities of a full orientation, from the definitions: D(O)(v) = indeg(v) - 1, deg D(O) = g - 1, D(O) + D(rev O) = K with K(v) = val(v) - 2
+                d = ir["st"]["dir"]; inc = [sum(M[v][w] for w in range(n) if M[v][w] and d[w][v] == 1) for v in range(n)]; out = [sum(M[v][w] for w in range(n) if M[v][w] and d[v][w] == 1) for v in range(n)]
+                x = ir["res"][2]; K = [sum(M[v]) - 2 for v in range(n)]; gen = sum(map(sum, M)) // 2 - n + 1
+                if ir["res"][1] != [a - 1 for a in inc] or x["rev"] != [a - 1 for a in out] or x["K"] != K or x["genus"] != gen or x["deg"] != sum(inc) - n:
+                    return {"violates": True, "why": "step %d: divisor %s / reverse %s / K %s / genus %s / degree %s, by definition %s / %s / %s / %s / %s" % (i - 1, ir["res"][1], x["rev"], x["K"], x["genus"], x["deg"], [a - 1 for a in inc], [a - 1 for a in out], K, gen, sum(inc) - n)}
     if o.get("acyclic_winnable"): return {"violates": True, "why": "acyclic orientation divisor winnable"}
     for then, now in o.get("held", []):
         if then != now: return {"violates": True, "why": "reverse() result moved with the original"}
